@@ -6,13 +6,23 @@ import struct
 from vlib import core, e2e
 from vlib.coord_common import first_diff
 
-MODS = ['S4V.Props.SortSpec', 'S4V.Props.FilterSpec']
+MODS = ['S4V.Props.SortSpec', 'S4V.Props.FilterSpec', 'S4V.Props.FixedSpec']
 LEVEL_NOTE = ("Proved over the model of `insert into BTreeMap, walk in key order` with the key shape, the window comparisons and the null-record test "
               "regenerated from fixedstructreader.rs on every run: every non-null in-window record exactly once, ordered by time value, equal times in file order "
-              "(C08_order = stable sort), both window bounds inclusive. Tied to the code by running the real binary on synthesised wtmp files and comparing the printed "
-              "record order with the model's. Field rendering (as_bytes) is compared with the generator's own values (testing).")
-ASSUME = ["record -> text (FixedStruct::as_bytes, 16 layouts) is not modelled; only the Linux x86_64 utmp layout is synthesised, other layouts use the shipped samples",
-          "layout detection (filesz_to_types / score_file) is not modelled"]
+              "(C08_order = stable sort), both window bounds inclusive. WHICH value is the record's time is proved too (FixedSpec), over a table regenerated from "
+              "fixedstruct.rs for all 16 FixedStructType layouts (record size, offset_tv, size_tv, the primitive type tv_pair_from_buffer reads, the declared type and "
+              "computed offset of the struct's time field): the ordering/filtering value is the time field read with its DECLARED type at its DECLARED offset "
+              "(C08_tv_types_agree by decide over the table, C08_tv_denotes, C08_tv_monotone_unsigned for u32 fields across 2^31, C08_file_order over record bytes). "
+              "Tied to the code by (1) the real tv_pair_from_buffer and FixedStruct::new on random/boundary records of every layout against the model (component `fixed`), "
+              "(2) the real binary on synthesised Linux wtmp (utmpx), pacct (acct_v3) and lastlog files with times across 2^31, comparing the printed record order with the "
+              "model's (`sort fixed` on times, `fixed sort` on the record bytes). Field rendering (as_bytes) is compared with the generator's own values (testing).")
+ASSUME = ["record -> text (FixedStruct::as_bytes, 16 layouts) is not modelled; the Linux x86_64 utmpx, acct_v3 (pacct) and lastlog layouts are synthesised end to end, "
+          "the other 13 layouts are covered by the in-process correspondence `fixed` (time value only) and the shipped samples",
+          "layout detection (filesz_to_types / score_file) is not modelled (synthesised files are built so that the intended layout scores highest)",
+          "byte order: both readers are native pointer reads; the model decodes little-endian (x86_64 / aarch64 builds)",
+          "struct layout computation in the translator assumes x86_64 C layout (primitive alignment = size); all 167 assertcp_eq! layout assertions of "
+          "fixedstruct.rs are re-checked against it on every run",
+          "chrono's accepted range of epoch seconds in FixedStruct::new is a measured constant of the model (cross-checked by `fixed`)"]
 
 
 def rec(i, sec, usec, typ=7):
@@ -136,6 +146,199 @@ def oracle_and_corr(ctx):
     return orc, [corr]
 
 
+# ---------------------------------------------------------------- pacct (Linux acct_v3) and lastlog, times across 2^31
+
+def rec_acct_v3(i, stored):
+    """64-byte Linux acct_v3 record; `ac_version` 3, `ac_btime` (u32 @24) = stored, `ac_pid` identifies the record"""
+    b = bytearray(64)
+    struct.pack_into('<BBHIIIIII', b, 0, [1, 2, 0, 3, 8][i % 5], 3, 0, 0, 1000, 1000, 1000 + i, 1, stored & 0xFFFFFFFF)
+    struct.pack_into('<f', b, 28, 0.0)
+    c = b'cmd%d' % i
+    b[48:48 + len(c)] = c
+    return bytes(b)
+
+
+def rec_lastlog(i, stored):
+    """292-byte Linux lastlog record; `ll_time` (@0, 4 bytes) = stored"""
+    b = bytearray(292)
+    struct.pack_into('<I', b, 0, stored & 0xFFFFFFFF)
+    x = b'pts/%d' % i
+    b[4:4 + len(x)] = x
+    h = b'host%d.example' % i
+    b[36:36 + len(h)] = h
+    return bytes(b)
+
+
+ACCT_RE = re.compile(rb"ac_flag 0b[01]{4}(?: \([A-Z|]+\))? ac_version (\d+) ac_tty (\d+) ac_exitcode (\d+) ac_uid (\d+) ac_gid (\d+) ac_pid (\d+) "
+                     rb"ac_ppid (\d+) ac_btime (-?\d+) ac_etime \S+ ac_utime \d+ ac_stime \d+ ac_mem \d+ ac_io \d+ ac_rw \d+ ac_minflt \d+ "
+                     rb"ac_majflt \d+ ac_swaps \d+ ac_comm '([^']*)'")
+LASTLOG_RE = re.compile(rb"ll_time (-?\d+) ll_line '([^']*)' ll_host '([^']*)'")
+
+
+def parse_acct(l, stored_of):
+    m = ACCT_RE.fullmatch(l)
+    if not m:
+        return None
+    i = int(m.group(6)) - 1000
+    own = m.group(1) == b'3' and m.group(9) == b'cmd%d' % i
+    return i, int(m.group(8)), own
+
+
+def parse_lastlog(l, stored_of):
+    m = LASTLOG_RE.fullmatch(l)
+    if not m or not m.group(2).startswith(b'pts/'):
+        return None
+    try:
+        i = int(m.group(2)[4:])
+    except ValueError:
+        return None
+    own = m.group(3) == b'host%d.example' % i
+    return i, int(m.group(1)), own
+
+
+# declared type of the time field as the property reads it (glibc: acct_v3.ac_btime is u32, lastlog.ll_time is int32_t on
+# x86_64); the type the TRANSLATOR finds in the struct definition replaces it when the Fixed table was generated
+FAMILIES = {
+    'acct_v3': {'variant': 'Fs_Linux_x86_Acct_v3', 'size': 64, 'suffix': '.pacct', 'rec': rec_acct_v3, 'parse': parse_acct, 'decl': 'u32'},
+    'lastlog': {'variant': 'Fs_Linux_x86_Lastlog', 'size': 292, 'suffix': '.lastlog', 'rec': rec_lastlog, 'parse': parse_lastlog, 'decl': 'i32'},
+}
+
+
+def declared(ctx, fam):
+    f = FAMILIES[fam]
+    try:
+        row = ctx.steps['gen']['modules']['Fixed']['table'][f['variant']]
+        if row[7] in ('u32', 'i32') and row[0] == f['size']:
+            return row[7]
+    except Exception:
+        pass
+    return f['decl']
+
+
+def decode(stored, prim):
+    stored &= 0xFFFFFFFF
+    return stored - (1 << 32) if prim == 'i32' and stored >= 1 << 31 else stored
+
+
+def gen_stored(rng, n):
+    """stored 32-bit time values: around 2^31 (19 Jan 2038), far beyond, ordinary, ties, nulls; out of order"""
+    H = 1 << 31
+    anchors = [H - 2, H - 1, H, H + 1, H + 2, 1700000000, 1700000001, 946684800, (1 << 32) - 1, (1 << 32) - 2, H + 86400, 1]
+    pool = [rng.pick(anchors) for _ in range(max(2, n // 2))]
+    out = []
+    for _ in range(n):
+        r = rng.below(10)
+        if r == 0:
+            out.append(0)                                # null time
+        elif r < 5:
+            out.append(rng.pick(pool))                   # ties likely
+        elif r < 8:
+            out.append(rng.pick(anchors) + rng.below(3))
+        else:
+            out.append(rng.range(1, (1 << 32) - 4))
+    return [x & 0xFFFFFFFF for x in out]
+
+
+def run_case2(ctx, rng, k, fam, kind):
+    f = FAMILIES[fam]
+    n = rng.range(171, 215) if (fam == 'acct_v3' and k % 16 == 7) else rng.range(1, 14)
+    stored = gen_stored(rng, n)
+    if all(t == 0 for t in stored):
+        stored[0] = 1700000001
+    # a null record is an all-zero slot (lastlog files are mostly that) or a filled record whose time is 0
+    recs = [(bytes(f['size']) if t == 0 and rng.chance(2, 3) else f['rec'](i, t)) for i, t in enumerate(stored)]
+    data = b''.join(recs)
+    path = os.path.join(ctx.work, 'c08_%s_%d%s%s' % (fam, k, f['suffix'], e2e.SUFFIX[kind]))
+    e2e.pack(data, kind, path, inner_name='c08' + f['suffix'])
+    prim = declared(ctx, fam)
+    vals = sorted(set(v for v in (decode(t, prim) for t in stored) if v > 0))
+    cand = vals + [1 << 31, (1 << 31) - 1, 1700000000]
+    mode = rng.below(4)
+    a = b = None
+    if mode == 1:
+        a = rng.pick(cand)
+    elif mode == 2:
+        b = rng.pick(cand)
+    elif mode == 3:
+        a, b = sorted([rng.pick(cand), rng.pick(cand)])
+    args = []
+    if a is not None:
+        args += ['-a', '+%d' % a]
+    if b is not None:
+        args += ['-b', '+%d' % b]
+    rc, out, err, _ = e2e.s4(e2e.BASE_ARGS + args + [path])
+    os.unlink(path)
+    return stored, recs, prim, a, b, args, rc, out, err
+
+
+def analyse2(fam, stored, recs, prim, a, b, args, rc, out, err, kind):
+    f = FAMILIES[fam]
+    fails = []
+    desc = {'family': fam, 'layout': f['variant'], 'stored_times': stored, 'declared_type': prim, 'args': args, 'kind': kind,
+            'file_hex': b''.join(recs).hex() if len(recs) <= 20 else 'large'}
+    if b'panicked' in err or rc not in (0, 1):
+        fails.append({'signature': 'fixedstruct:crash', 'detail': f'rc={rc} {err[-300:]!r}', 'case': desc})
+        return None, fails
+    nul = out.count(b'\0')
+    lines = [l for l in out.replace(b'\0', b'').split(b'\n') if l]
+    idxs = []
+    for l in lines:
+        p = f['parse'](l, stored)
+        if p is None:
+            fails.append({'signature': 'fixedstruct:unparsable-output-line', 'detail': repr(l[:200]), 'case': desc})
+            return None, fails
+        i, shown, own = p
+        idxs.append(i)
+        if not (0 <= i < len(stored)) or not own or shown != decode(stored[i], prim):
+            fails.append({'signature': 'fixedstruct:%s-line-shows-foreign-field-values' % fam,
+                          'detail': f'record {i}: stored {stored[i] if 0 <= i < len(stored) else None} as {prim} = '
+                                    f'{decode(stored[i], prim) if 0 <= i < len(stored) else None}, printed {shown}: ' + repr(l[:200]), 'case': desc})
+    # reference: the property itself, on the record's time = the time field read with its declared type
+    vals = [decode(t, prim) for t in stored]
+    keep = [(v, i) for i, v in enumerate(vals) if v != 0 and (a is None or v >= a) and (b is None or v <= b)]
+    exp = [i for v, i in sorted(keep, key=lambda x: x[0])]
+    if idxs != exp:
+        fails.append({'signature': 'fixedstruct:%s-order-or-window-by-declared-time' % fam,
+                      'detail': f'printed {idxs} expected {exp} (times as {prim}: {vals})', 'case': desc})
+    if nul:
+        fails.append({'signature': 'fixedstruct:nul-after-each-record', 'detail': f'{nul} NUL bytes in stdout after {len(lines)} records', 'case': desc})
+    return idxs, fails
+
+
+def oracle_and_corr2(ctx):
+    rng = e2e.Rng(ctx.seed * 131 + 7)
+    n = ctx.q(96, 800)
+    failures, samples, reqs, impl = [], [], [], []
+    kinds = ['plain', 'plain', 'gz', 'plain', 'xz', 'bz2', 'lz4', 'tar']
+    per = {}
+    for k in range(n):
+        fam = 'acct_v3' if k % 2 == 0 else 'lastlog'
+        kind = kinds[(k // 2) % len(kinds)]
+        stored, recs, prim, a, b, args, rc, out, err = run_case2(ctx, rng, k, fam, kind)
+        idxs, fails = analyse2(fam, stored, recs, prim, a, b, args, rc, out, err, kind)
+        failures += fails
+        st = per.setdefault(fam, {'files': 0, 'records': 0, 'stored_ge_2^31': 0, 'printed': 0, 'windowed': 0})
+        st['files'] += 1
+        st['records'] += len(stored)
+        st['stored_ge_2^31'] += sum(1 for t in stored if t >= 1 << 31)
+        st['printed'] += len(idxs or [])
+        st['windowed'] += 1 if args else 0
+        if idxs is not None and len(recs) <= 40:
+            fa = 'n' if a is None else '%d:0' % a
+            fb = 'n' if b is None else '%d:0' % b
+            reqs.append('fixed sort %s %s %s %s' % (FAMILIES[fam]['variant'], fa, fb, ','.join(r.hex() for r in recs)))
+            impl.append(','.join(str(i) for i in idxs))
+        if len(samples) < 4 and k % 2 == len(samples) % 2:
+            samples.append({'oracle': 'C08 ' + fam, 'stored_times': stored, 'declared_type': prim, 'args': args, 'kind': kind, 'printed': idxs})
+    orc = {'evaluations': n, 'distinct_nontrivial': len(set(reqs)), 'failures': failures, 'samples': samples, 'per_family': per,
+           'rule': f'{n} synthesised Linux pacct (acct_v3, 64-byte records, ac_version 3) and lastlog (292-byte records) files, alternating (1-14 records, every 16th pacct 171+; '
+                   'stored 32-bit times around and beyond 2^31 = 19 Jan 2038, ties, nulls, out of order; plain and every container) x windows on record times / 2^31; '
+                   'printed order must be the stable sort of the non-null in-window records by the time field read with its DECLARED type (ac_btime u32, ll_time i32: taken from the '
+                   'generated table), each line must show its own field values incl. that time; distinct = distinct (layout, window, record bytes) inputs'}
+    corr = model_compare(ctx, 'fixed-sort', reqs, impl)
+    return orc, [corr]
+
+
 def model_compare(ctx, name, reqs, impl):
     res = {'component': name, 'cases': len(reqs), 'disagreements': [], 'distinct': len(set(reqs))}
     if not reqs:
@@ -166,17 +369,19 @@ def model_compare(ctx, name, reqs, impl):
 
 
 def check(ctx):
-    ok_gen = core.step_gen(ctx, ['Keys', 'Filter'])
+    ok_gen = core.step_gen(ctx, ['Keys', 'Filter', 'Fixed'])
     prove = core.step_prove(ctx, MODS) if ok_gen else {'module': ' '.join(MODS), 'obligations': 0, 'discharged': 0}
     ok_drv = core.step_drv(ctx) if (ok_gen or ctx.search_mode) else False
     ok_impl = core.step_build_impl(ctx)
     orc, corr = (None, [])
     if ok_impl:
         if ok_drv:
-            orc, corr = oracle_and_corr(ctx)
-        else:
-            core_drv = core.DRV
-            orc, corr = oracle_and_corr(ctx)
+            # the real tv_pair_from_buffer / FixedStruct::new on records of every layout vs the model over the generated table
+            corr.append(core.correspond(ctx, 'fixed', ctx.q(3600, 16000)))
+        orc1, corr1 = oracle_and_corr(ctx)
+        orc2, corr2 = oracle_and_corr2(ctx)
+        orc = core.merge_oracles([orc1, orc2])
+        corr += corr1 + corr2
     return core.decide(ctx, prove, corr, orc, LEVEL_NOTE, ASSUME)
 
 
